@@ -62,6 +62,9 @@ CPLX = Profile(ops={"arith", "math", "index", "tensor", "compound", "deriv", "po
 INTERIOR_SURF = Profile(ops=OPS_REAL, leaves={"coef", "const", "lit", "x", "geo", "zero", "eye", "n"}, max_rank=2,
                         elements="all", interior=True, facet=True, manifolds=True, args=((0, "any"), (1, "any")),
                         cells=("interval", "triangle", "interval", "triangle", "tetrahedron"))
+FACET_SURF = Profile(ops=OPS_REAL | {"derivn"}, leaves={"coef", "const", "lit", "x", "geo", "zero", "eye", "n"}, max_rank=2,
+                     elements="all", manifolds=True, facet=True, args=((0, "any"), (1, "any")),
+                     cells=("interval", "interval", "triangle"))
 PRESERVE = ["Jacobian", "JacobianInverse", "JacobianDeterminant", "FacetNormal", "CellVolume", "FacetArea", "Circumradius"]
 
 
@@ -69,12 +72,13 @@ PRESERVE = ["Jacobian", "JacobianInverse", "JacobianDeterminant", "FacetNormal",
 def cases(draw, tier):
     cplx = draw(st.integers(0, 5)) == 0
     kind = "cplx" if cplx else draw(st.sampled_from(["cell", "cell", "facet", "interior", "interior"]))
-    # focus stratum (1 in 10): interior facets of interval / triangle meshes (immersed in two thirds of the cases), a
-    # facet-normal factor of either side, restrictions applied -- the combination where n('-') is not -n('+')
-    focus = (not cplx) and draw(st.integers(0, 9)) == 0
+    # focus stratum (1 in 6): exterior / interior facets of interval and triangle meshes (immersed in half of the cases),
+    # a facet-normal factor (of either side), restrictions applied, geometry lowering in three quarters of the cases --
+    # where n('-') is not -n('+'), and where the sign of a 1D Jacobian matters
+    focus = (not cplx) and draw(st.integers(0, 5)) == 0
     if focus:
-        kind = "interior"
-    prof = {"cplx": CPLX, "cell": REAL, "facet": FACET, "interior": INTERIOR_SURF if focus else INTERIOR}[kind]
+        kind = draw(st.sampled_from(["interior", "interior", "facet"]))
+    prof = {"cplx": CPLX, "cell": REAL, "facet": FACET_SURF if focus else FACET, "interior": INTERIOR_SURF if focus else INTERIOR}[kind]
     world = draw(worlds(prof))
     G = Gen(draw, world, prof)
     L = LinGen(G, cplx=cplx)
@@ -88,7 +92,7 @@ def cases(draw, tier):
         if kind == "cell" or kind == "cplx":
             it = "dx"
         elif kind == "facet":
-            it = draw(st.sampled_from(["ds", "ds", "dx"]))
+            it = "ds" if focus else draw(st.sampled_from(["ds", "ds", "dx"]))
         else:
             it = "dS" if focus else draw(st.sampled_from(["dS", "dS", "dx"]))
         nterms = draw(st.sampled_from([1, 1, 2]))
@@ -98,7 +102,7 @@ def cases(draw, tier):
         e = terms[0]
         for t in terms[1:]:
             e = ["add", e, t]
-        if not cplx and (draw(st.integers(0, 2 if it != "dS" else 1)) == 0 or (focus and it == "dS")):
+        if not cplx and (draw(st.integers(0, 2 if it != "dS" else 1)) == 0 or (focus and it != "dx")):
             # a geometric factor: every scalar cell/facet quantity meets every cell type often enough
             names = list(GEO_SCALAR_CELL) + (list(GEO_SCALAR_FACET) if it != "dx" else [])
             q = ["geo", draw(st.sampled_from(names))]
@@ -107,7 +111,7 @@ def cases(draw, tier):
                 q = ["index", ["geo", "FacetNormal"], [draw(st.integers(0, world["gdim"] - 1))]]
             e = ["mul", ["restr", q, draw(st.sampled_from(["+", "-", "-"]))] if it == "dS" else q, e]
         integrals.append({"itype": it, "sid": draw_sid(draw), "md": draw_md(draw), "expr": e})
-    geo = draw(st.booleans())
+    geo = draw(st.booleans()) or (focus and draw(st.booleans()))
     opts = {
         "do_apply_function_pullbacks": draw(st.booleans()),
         "do_apply_integral_scaling": draw(st.booleans()),
